@@ -76,6 +76,42 @@ def walk_no_nested(fnode):
         stack.extend(reversed(list(ast.iter_child_nodes(n))))
 
 
+class _Noise(ast.NodeTransformer):
+    """Statements without effect on any computed value are dropped before analysis, so that adding or removing them can
+    never change a verdict: `pass`, bare constants (stray strings), and calls of print()."""
+
+    def _clean(self, stmts):
+        out = []
+        for s in stmts:
+            if isinstance(s, ast.Pass):
+                continue
+            if isinstance(s, ast.Expr) and isinstance(s.value, ast.Call) and isinstance(s.value.func, ast.Name) and s.value.func.id == 'print':
+                continue
+            out.append(s)
+        return out
+
+    def generic_visit(self, node):
+        super().generic_visit(node)
+        for field in ('body', 'orelse', 'finalbody'):
+            blk = getattr(node, field, None)
+            if isinstance(blk, list) and blk and all(isinstance(x, ast.stmt) for x in blk):
+                keep_doc = []
+                rest = blk
+                if field == 'body' and isinstance(node, (ast.FunctionDef, ast.AsyncFunctionDef, ast.ClassDef, ast.Module)) and blk and \
+                        isinstance(blk[0], ast.Expr) and isinstance(blk[0].value, ast.Constant) and isinstance(blk[0].value.value, str):
+                    keep_doc, rest = [blk[0]], blk[1:]
+                rest = [x for x in self._clean(rest) if not (isinstance(x, ast.Expr) and isinstance(x.value, ast.Constant))]
+                new = keep_doc + rest
+                if not new:
+                    new = [ast.copy_location(ast.Pass(), blk[0])] if field == 'body' else []
+                setattr(node, field, new)
+        return node
+
+
+def _strip_noise(tree):
+    return ast.fix_missing_locations(_Noise().visit(tree))
+
+
 class ModuleInfo:
     def __init__(self, root, relpath):
         self.relpath = relpath
@@ -84,7 +120,7 @@ class ModuleInfo:
             raw = f.read()
         self.digest = hashlib.sha256(raw).hexdigest()
         self.source = raw.decode('utf-8')
-        self.tree = ast.parse(self.source, filename=relpath)
+        self.tree = _strip_noise(ast.parse(self.source, filename=relpath))
         mod = relpath[:-3].replace('/', '.')
         self.is_pkg = mod.endswith('.__init__')
         if self.is_pkg:
